@@ -23,5 +23,5 @@ META = {
 
 def main(argv):
     c = vcheck.Check("C01", argv)
-    mirrorlib.mirror_check(c, "C01", ["c01", "c06"], "C01 commit certificate", extra=["-crashes"], templates=[9])  # c06: the totals the commit decision reads are the recomputation (C01_decision_reads_recomputed_powers)
+    mirrorlib.mirror_check(c, "C01", ["c01", "c06"], "C01 commit certificate", extra=["-crashes"], templates=[9, 12])  # 12: replays two rounds ahead (genuine, and with next-round signatures); c06: the totals the commit decision reads are the recomputation (C01_decision_reads_recomputed_powers)
     c.finish()
